@@ -18,6 +18,7 @@ func (p *parser) parseFile() {
 
 	// X64 强制采用 intel 语法
 	if p.cpu == abi.X64Unix || p.cpu == abi.X64Windows {
+	Loop:
 		for {
 			if p.err != nil {
 				return
@@ -38,6 +39,11 @@ func (p *parser) parseFile() {
 				}
 				p.acceptToken(token.GAS_X64_INTEL_SYNTAX)
 				p.acceptToken(token.GAS_X64_NOPREFIX)
+				break Loop
+
+			default:
+				// 其他 token 交给后面的主体解析(缺少 intel 语法声明时在下面报错)
+				break Loop
 			}
 		}
 		if p.prog.IntelSyntax == nil {
